@@ -7,6 +7,7 @@ package schedmc
 
 import (
 	"fmt"
+	"runtime"
 	"strings"
 
 	"verif/lib/vr"
@@ -38,19 +39,30 @@ type Options struct {
 	Exclusive bool
 	// StartQuiet: exploration starts switched off; the harness calls vsched.SetExplore(true).
 	StartQuiet bool
+	// FreshPools: two GC cycles before every execution, which empties every sync.Pool, so that
+	// package-level caches of the code under test cannot carry state from one execution to the next.
+	FreshPools bool
+	// SoftNondeterminism: a failing schedule that cannot be reproduced (even from emptied pools) and
+	// a prefix replay that diverges are counted ("unreproducible_failures", "diverged_replays") and
+	// skipped instead of aborting the run. The caller must turn a non-zero count into a harness
+	// error when no reproducible violation was found. For code under test that may keep
+	// process-global state across executions.
+	SoftNondeterminism bool
 }
 
 type Stats struct {
-	Executions int64
-	Steps      int64
-	Decisions  int64
+	Executions   int64
+	Steps        int64
+	Decisions    int64
 	MaxDecisions int
-	Incomplete bool
+	Incomplete   bool
 }
 
 type replayChooser struct {
-	prefix []int
-	taken  []int
+	prefix   []int
+	taken    []int
+	soft     bool
+	diverged bool
 }
 
 func (c *replayChooser) choose(i, n int) int {
@@ -58,7 +70,10 @@ func (c *replayChooser) choose(i, n int) int {
 	if i < len(c.prefix) {
 		pick = c.prefix[i]
 		if pick >= n {
-			vr.Fatalf("schedule replay diverged: decision %d wants alternative %d of %d", i, pick, n)
+			if !c.soft {
+				vr.Fatalf("schedule replay diverged: decision %d wants alternative %d of %d", i, pick, n)
+			}
+			c.diverged, pick = true, 0
 		}
 	}
 	c.taken = append(c.taken, pick)
@@ -66,17 +81,22 @@ func (c *replayChooser) choose(i, n int) int {
 }
 
 type runResult struct {
-	trace   []vsched.Step
-	taken   []int
-	res     vsched.Result
-	sig     string
-	desc    string
-	outcome string
+	diverged bool
+	trace    []vsched.Step
+	taken    []int
+	res      vsched.Result
+	sig      string
+	desc     string
+	outcome  string
 }
 
 func runOnce(setup func() *Exec, opt Options, prefix []int) runResult {
+	if opt.FreshPools {
+		runtime.GC()
+		runtime.GC()
+	}
 	ex := setup()
-	ch := &replayChooser{prefix: prefix}
+	ch := &replayChooser{prefix: prefix, soft: opt.SoftNondeterminism}
 	s := vsched.New(ex.Threads, ch.choose)
 	s.Exclusive = opt.Exclusive
 	if opt.StartQuiet {
@@ -121,7 +141,7 @@ func runOnce(setup func() *Exec, opt Options, prefix []int) runResult {
 	if ex.Cleanup != nil {
 		ex.Cleanup()
 	}
-	return runResult{trace: s.Trace, taken: ch.taken, res: res, sig: sig, desc: desc, outcome: out}
+	return runResult{diverged: ch.diverged, trace: s.Trace, taken: ch.taken, res: res, sig: sig, desc: desc, outcome: out}
 }
 
 // Explore enumerates all schedules with at most opt.Bound preemptions.
@@ -146,6 +166,10 @@ func Explore(setup func() *Exec, opt Options, sh vr.ShardInfo, p *vr.Partial, ex
 		it := stack[len(stack)-1]
 		stack = stack[:len(stack)-1]
 		rr := runOnce(setup, opt, it.prefix)
+		if rr.diverged {
+			p.Add("diverged_replays", 1)
+			continue
+		}
 		dup := sh.Count > 1 && sh.Index != 0 && it.dev < opt.ShardDepth // explored by every worker, counted once
 		if !dup {
 			st.Executions++
@@ -177,7 +201,26 @@ func Explore(setup func() *Exec, opt Options, sh vr.ShardInfo, p *vr.Partial, ex
 			again := runOnce(setup, opt, rr.taken)
 			st.Executions++
 			if again.sig != rr.sig {
-				vr.Fatalf("%s: schedule %v is not reproducible: %q then %q", opt.Name, rr.taken, rr.sig, again.sig)
+				// The code under test may keep process-global caches (sync.Pool) whose content
+				// depends on earlier executions. Two GC cycles empty every sync.Pool: the schedule
+				// must then fail identically twice from that clean state, otherwise it is a
+				// harness problem and nothing is reported.
+				runtime.GC()
+				runtime.GC()
+				c1 := runOnce(setup, opt, rr.taken)
+				runtime.GC()
+				runtime.GC()
+				c2 := runOnce(setup, opt, rr.taken)
+				st.Executions += 2
+				if (c1.sig == "" || c1.sig != c2.sig) && opt.SoftNondeterminism {
+					p.Add("unreproducible_failures", 1)
+					p.Sample(fmt.Sprintf("%s: unreproducible failure %q on schedule %v", opt.Name, rr.sig, rr.taken))
+					continue
+				}
+				if c1.sig == "" || c1.sig != c2.sig {
+					vr.Fatalf("%s: schedule %v is not reproducible: %q then %q (from flushed pools: %q, %q)", opt.Name, rr.taken, rr.sig, again.sig, c1.sig, c2.sig)
+				}
+				rr = c1
 			}
 			p.Add("validated_replays", 1)
 			p.Viol(opt.Name+": "+rr.sig, rr.desc+"\n  schedule: "+traceString(rr.trace, 400), fmt.Sprintf(`{"Harness":%q,"Choices":%s}`, opt.Name, intsJSON(rr.taken)))
